@@ -843,27 +843,35 @@ def parse_args(
         if arg.lower() in FG_COLORS:
             if "fg" in kwargs:
                 raise ValueError("fg specified twice")
-            kwargs["fg"] = FG_COLORS[cast(str, arg)]
+            kwargs["fg"] = FG_COLORS[arg.lower()]
         elif arg.lower().startswith("on_") and arg[3:].lower() in BG_COLORS:
             if "bg" in kwargs:
                 raise ValueError("fg specified twice")
-            kwargs["bg"] = BG_COLORS[cast(str, arg[3:])]
+            kwargs["bg"] = BG_COLORS[arg[3:].lower()]
         elif arg.lower() in STYLES:
-            kwargs[arg] = True
+            if kwargs.get(arg.lower(), True) is not True:
+                raise ValueError(f"{arg.lower()} specified twice")
+            kwargs[arg.lower()] = True
         else:
             raise ValueError(f"couldn't process arg: {args!r}")
     for k in kwargs:
         if k not in ("fg", "bg") and k not in STYLES.keys():
             raise ValueError("Can't apply that transformation")
+        if k in STYLES.keys() and not isinstance(kwargs[k], bool):
+            raise ValueError(f"Bad {k} value: {kwargs[k]!r}")
     if "fg" in kwargs:
         if kwargs["fg"] in FG_COLORS:
             kwargs["fg"] = FG_COLORS[cast(str, kwargs["fg"])]
-        if kwargs["fg"] not in list(FG_COLORS.values()):
+        if not isinstance(kwargs["fg"], int) or kwargs["fg"] not in list(
+            FG_COLORS.values()
+        ):
             raise ValueError(f"Bad fg value: {kwargs['fg']!r}")
     if "bg" in kwargs:
         if kwargs["bg"] in BG_COLORS:
             kwargs["bg"] = BG_COLORS[cast(str, kwargs["bg"])]
-        if kwargs["bg"] not in list(BG_COLORS.values()):
+        if not isinstance(kwargs["bg"], int) or kwargs["bg"] not in list(
+            BG_COLORS.values()
+        ):
             raise ValueError(f"Bad bg value: {kwargs['bg']!r}")
     return cast(MutableMapping[str, Union[int, bool]], kwargs)
 
